@@ -32,7 +32,7 @@ func genC03(g *gen, tier string) *Scenario {
 	sc.Cache.MaxSize = int64(pick(g, 2, 3, 4, 8, 16))
 	sc.Sim.Drift = pick(g, 1, 2, 3, 3, 4)
 	sc.Sim.MaxSteps = 2000000
-	stalls := pick(g, "none", "none", "ticker", "listener", "jump")
+	stalls := pick(g, "none", "none", "ticker", "listener", "jump", "restart")
 	sc.Family = kind + ",stall=" + stalls
 	if stalls == "listener" {
 		sc.Stubs.ListenerSlowPct = pick(g, 30, 100)
@@ -90,6 +90,31 @@ func genC03(g *gen, tier string) *Scenario {
 					ops = append(ops, Op{Kind: "stall", Site: "maintenance>func", Dur: pick(g, 3*sec, 20*sec, 35*sec, 50*sec, 100*sec, 400*sec)})
 				case "jump":
 					ops = append(ops, Op{Kind: "advance", Dur: pick(g, 2*sec, 20*sec, 31*sec, 45*sec, 90*sec, 3600*sec)})
+				case "restart":
+					// SaveCache, Close, downtime that ends around a pending deadline, a new cache, LoadCache:
+					// restored values keep their wall-clock deadlines, whatever the other clients are doing
+					d := int64(g.rng(0, 3000)) * ms
+					rkey := g.n(nkeys)
+					var after int64
+					if now, dls := c03Deadlines(ops); len(dls) > 0 && g.pct(75) {
+						// the new cache comes up 1-950 ms before a deadline (time spent inside calls is
+						// not in the estimate), and the key is read again 0-1.2 s after that
+						x := dls[g.n(len(dls))]
+						d = x.at - now - int64(g.rng(1, 950))*ms
+						if d < 0 {
+							d = 0
+						}
+						rkey = x.key
+						after = x.at - now - d + int64(g.rng(-100, 1200))*ms
+					}
+					op := Op{Kind: "restart", Key: 3, Dur: d, N: pick(g, 0, 1, 7, 4096)}
+					if g.pct(15) {
+						op.Cost = int64(g.rng(1, 99)) // crashed while saving: a torn stream
+					}
+					ops = append(ops, op, Op{Kind: "get", Key: rkey})
+					if after > 0 {
+						ops = append(ops, Op{Kind: "sleep", Dur: after}, Op{Kind: "get", Key: rkey})
+					}
 				case "listener":
 					// force evictions so that the listener runs under the policy lock
 					ops = append(ops, Op{Kind: "set", Key: 100 + g.n(50), Cost: 1}, Op{Kind: "set", Key: 100 + g.n(50), Cost: 1})
@@ -103,6 +128,33 @@ func genC03(g *gen, tier string) *Scenario {
 		sc.Clients = append(sc.Clients, ops)
 	}
 	return sc
+}
+
+type c03dl struct {
+	key int
+	at  int64
+}
+
+// c03Deadlines estimates, from the sleeps of one client's operation list, the time elapsed so far and
+// the deadlines of its TTL writes that still lie ahead.
+func c03Deadlines(ops []Op) (now int64, dls []c03dl) {
+	var all []c03dl
+	for _, o := range ops {
+		switch o.Kind {
+		case "sleep", "advance", "restart":
+			now += o.Dur
+		case "set":
+			if o.TTL > 0 && o.TTL < 1000*sec {
+				all = append(all, c03dl{o.Key, now + o.TTL})
+			}
+		}
+	}
+	for _, x := range all {
+		if x.at > now {
+			dls = append(dls, x)
+		}
+	}
+	return
 }
 
 func checkC03(rd *RunData) []Violation {
@@ -155,6 +207,16 @@ func checkC03(rd *RunData) []Violation {
 		cls := "clock-fresh"
 		if stale >= 30*sec {
 			cls = "cached-clock-stale>=30s"
+		}
+		for _, rs := range rd.Restarts {
+			// a cache that was built less than 30 s before the read cannot have a cached clock that
+			// nobody refreshed for 30 s: whatever the numbers say, this is not the known finding
+			if rs.DoneSeq < r.Inv && r.InvT-rs.LoadT < 30*sec && r.InvT >= rs.LoadT {
+				cls = "clock-fresh,cache-restored<30s-ago"
+				if _, ok := rd.restoredVal(rs, v); ok {
+					cls += ",restored-value"
+				}
+			}
 		}
 		vs = append(vs, Violation{"C03/served-after-deadline/" + r.Op.Kind + "," + cls,
 			fmt.Sprintf("%s by client %d invoked at t=%s returned value %d of key %d, written by %s: its deadline was at most t=%s, %.6fs before the read was invoked (cached clock up to %.3fs stale during the read)",
